@@ -125,6 +125,9 @@ def main(argv: List[str]) -> int:
     for with_props in (False, True):
         ds = docs.gen_docs(lo, lo + n - 1, with_props, rep)
         for seed, doc in ds:
+            # content with the Unicode line separators that str.splitlines() honours: a route that
+            # re-splits its input would change it
+            doc = doc + [{'d': 'sticky', 'name': 'zz_sep', 'text': 'sep~u2028~arator ~u0085~ nel~u2029~ par'}]
             for route in ROUTES + BAD:
                 for bom in (False, True):
                     for allow in (False, True):
